@@ -122,7 +122,7 @@ Theorem C14_crypt_refuted :
 Proof. exact crypt_key_size_refuted. Qed.
 Print Assumptions C14_crypt_refuted.
 
-(** page tree: no panic when the counts of every level sum to less than 2^32; depth <= page_depth by construction *)
+(** page tree: no panic when the counts of every level sum to less than 2^32; depth <= sf_page_depth by construction *)
 Theorem C14_page_counts : forall depth kids page_nr, counts_fit depth kids = true -> never_crashes (page_limited depth kids page_nr).
 Proof. exact page_limited_safe. Qed.
 Print Assumptions C14_page_counts.
@@ -169,7 +169,7 @@ Theorem C14_guards_in_source :
   ps_roll_len_guard = 1 /\ ps_roll_mod_guard = 1 /\ ps_index_guard = 1 /\ ps_parse_get = 1 /\ diff_wrapping = 1.
 Proof. exact guards_table. Qed.
 Print Assumptions C14_guards_in_source.
-Theorem C14_budgets_in_source : (0 <? page_depth) = true /\ (0 <? tree_depth) = true /\ (0 <? cs_depth) = true.
+Theorem C14_budgets_in_source : (0 <? sf_page_depth) = true /\ (0 <? tree_depth) = true /\ (0 <? cs_depth) = true.
 Proof. exact depth_table. Qed.
 Print Assumptions C14_budgets_in_source.
 
